@@ -64,3 +64,94 @@ contract('gnpy.topology.request.compute_path_with_disjunction',
                   ('reverse_direction_on_a_copy', 'rrx is not pathlist[0][0].ghost_reversed[1] and rx is not pathlist[0][1]')],
          modifies=['pathreq.blocking_reason', 'path_res_list[*]', 'reversed_path_res_list[*]',
                    'propagated_reversed_path_res_list[*]'])
+
+# ================================================================== C11 routing
+def NODE(cls, name):
+    return obj(cls, uid=const(name))
+
+
+_S, _D = NODE('Transceiver', 'trx S'), NODE('Transceiver', 'trx D')
+_A, _B, _C = NODE('Roadm', 'roadm A'), NODE('Roadm', 'roadm B'), NODE('Roadm', 'roadm C')
+_X = obj('Edfa', uid=const('edfa X'), oms=obj('<ns>'))      # a line element of the direct link A -> D
+# ghost graph: iteration order of the nodes, the candidate simple paths in non-decreasing weight order (networkx
+# shortest_simple_paths, assumed), whether no path exists, and the result of the explicit-path shortcut
+contract('gnpy.topology.request.shortest_simple_paths', trusted=True, props=[],
+         params={'G': obj('<ns>'), 'source': obj('<ns>'), 'target': obj('<ns>'), 'weight': string()},
+         raises={'NetworkXNoPath': 'G.ghost_nopath'}, ensures=[], returns=expr('G.ghost_paths'),
+         note='ASSUMED networkx: all simple source->target paths by non-decreasing weight; NetworkXNoPath iff none')
+contract('gnpy.topology.request.dijkstra_path', trusted=True, props=[],
+         params={'G': obj('<ns>'), 'source': obj('<ns>'), 'target': obj('<ns>'), 'weight': string()},
+         ensures=[], returns=expr('G.ghost_paths[0]'), note='ASSUMED networkx: a minimum-weight path = first simple path')
+contract('gnpy.topology.request.explicit_path', name='gnpy.topology.request.explicit_path[call-site summary]', trusted=True, props=[],
+         params={'node_list': lst(), 'source': obj('<ns>'), 'destination': obj('<ns>'), 'network': obj('<ns>')},
+         ensures=[('none_without_line_elements', "implies(not any(hasattr(n, 'oms') for n in node_list), result is None)")],
+         returns=expr('network.ghost_explicit'),
+         note='summary: None unless the include list names line elements (which carry an OMS); then None or the '
+              'concatenation of those OMS from the source ROADM to the destination ROADM')
+
+
+def shared_n(key, node):
+    return shared('node_' + key, node)
+
+
+_nS, _nD, _nA, _nB, _nC, _nX = (shared_n(k, v) for k, v in (('S', _S), ('D', _D), ('A', _A), ('B', _B), ('C', _C), ('X', _X)))
+P1 = lst(_nS, _nA, _nX, _nD)           # the shortest route (direct link through the line element X)
+P2 = lst(_nS, _nA, _nB, _nD)           # via B
+P3 = lst(_nS, _nC, _nB, _nD)           # via C then B
+SPEC_ROUTE = '''
+def POS(path, n):
+    return path.index(n) if n in path else -1
+def INORDER(nodes, path):
+    # the include nodes are all crossed, in the given order (positions strictly increasing)
+    return all(POS(path, n) >= 0 for n in nodes) and all(POS(path, a) < POS(path, b) for a, b in zip(nodes, nodes[1:]))
+'''
+for _incl, _loose, _explicit, _label in (
+        (['roadm B'], ['STRICT', 'STRICT'], const(None), 'include B strict'),
+        (['roadm C', 'roadm B'], ['LOOSE', 'STRICT', 'STRICT'], const(None), 'include C then B'),
+        (['roadm B', 'roadm C'], ['LOOSE', 'LOOSE', 'LOOSE'], const(None), 'unsatisfiable, all loose'),
+        (['roadm B', 'roadm C'], ['STRICT', 'LOOSE', 'STRICT'], const(None), 'unsatisfiable, one strict'),
+        (['roadm B', 'edfa X'], ['STRICT', 'STRICT', 'STRICT'], P1, 'explicit-path shortcut ignoring a strict ROADM')):
+    contract('gnpy.topology.request.compute_constrained_path',
+             name=f'gnpy.topology.request.compute_constrained_path[{_label}]', props=['C11'], use_at_calls=False,
+             params={'network': obj('<ns>', __iter__=lst(_nS, _nD, _nA, _nB, _nC, _nX), ghost_paths=lst(P1, P2, P3),
+                                    ghost_nopath=const(False), ghost_explicit=_explicit),
+                     'req': obj('<ns>', request_id=string(), source=const('trx S'), destination=const('trx D'),
+                                nodes_list=const(_incl + ['trx D']), loose_list=const(_loose))},
+             spec=SPEC_ROUTE,
+             let={'incl': f"[n for n in network.__iter__ if n.uid in {_incl!r}]",
+                  'incl_sorted': f"[[n for n in network.__iter__ if n.uid == u][0] for u in {_incl!r}]",
+                  'blocked': "hasattr(req, 'blocking_reason')"},
+             ensures=[('ends', 'implies(len(result) > 0, result[0].uid == req.source and result[len(result) - 1].uid == req.destination)'),
+                      ('include_nodes_in_order_or_blocked_or_dropped',
+                       "implies(len(result) > 0 and 'STRICT' in req.loose_list[:len(req.loose_list) - 1], INORDER(incl_sorted, result))"),
+                      ('first_matching_candidate', "implies(len(result) > 0 and INORDER(incl_sorted, result), "
+                                                   "all(not INORDER(incl_sorted, p) for p in network.ghost_paths[:network.ghost_paths.index(result)]))"),
+                      ('strict_unsatisfiable_blocks', "implies(not any(INORDER(incl_sorted, p) for p in network.ghost_paths) and "
+                                                      "'STRICT' in req.loose_list[:len(req.loose_list) - 1], "
+                                                      "blocked and req.blocking_reason == 'NO_PATH_WITH_CONSTRAINT' and len(result) == 0)"),
+                      ('loose_unsatisfiable_gives_shortest', "implies(not any(INORDER(incl_sorted, p) for p in network.ghost_paths) and "
+                                                             "'STRICT' not in req.loose_list[:len(req.loose_list) - 1], "
+                                                             "not blocked and result is network.ghost_paths[0])")],
+             modifies=['req.blocking_reason'])
+
+# ---- sub-sequence and link-disjointness helpers (lists of symbolic node identities; structure bound: lengths 2 and 4)
+contract('gnpy.topology.request.ispart', props=['C11'],
+         params={'ptha': lst(integer(), integer()), 'pthb': lst(integer(), integer(), integer(), integer())},
+         spec='''
+def POSI(b, x):
+    return 0 if b[0] == x else 1 if b[1] == x else 2 if b[2] == x else 3 if b[3] == x else -1
+''',
+         requires=[('b_duplicate_free', 'pthb[0] != pthb[1] and pthb[0] != pthb[2] and pthb[0] != pthb[3] and pthb[1] != pthb[2] '
+                                        'and pthb[1] != pthb[3] and pthb[2] != pthb[3]')],
+         # a is an order-preserving sub-sequence of b
+         ensures=[('subsequence', 'iff(result, POSI(pthb, ptha[0]) >= 0 and POSI(pthb, ptha[1]) >= 0 and '
+                                  'POSI(pthb, ptha[0]) <= POSI(pthb, ptha[1]))')],
+         use_at_calls=False, modifies=[])
+
+contract('gnpy.topology.request.isdisjoint', props=['C12'],
+         params={'pth1': lst(integer(), integer(), integer()), 'pth2': lst(integer(), integer(), integer())},
+         # 0 iff no directed link (consecutive pair) of one path is a link of the other
+         ensures=[('no_common_link', 'iff(result == 0, not ((pth1[0] == pth2[0] and pth1[1] == pth2[1]) or (pth1[0] == pth2[1] and pth1[1] == pth2[2]) '
+                                     'or (pth1[1] == pth2[0] and pth1[2] == pth2[1]) or (pth1[1] == pth2[1] and pth1[2] == pth2[2])))'),
+                  ('zero_or_one', 'result == 0 or result == 1')],
+         use_at_calls=False, modifies=[])
